@@ -1591,3 +1591,300 @@ Proof.
       * apply andb_prop in H. destruct H as [Hex He]. destruct timeout; [|discriminate]. rewrite He. reflexivity.
       * destruct (raiser_seq_err jobs e H) as [e'' He'']. unfold sequential in He''. rewrite Hm in He''. discriminate.
 Qed.
+
+(* ================================================================================================
+   pre_process_sequences, the identifier block: the identifiers are decided in the parent
+   ================================================================================================ *)
+From ASV.C16 Require Proofs.
+From Coq Require String Ascii.
+
+
+Definition pfn_t := (nrec -> res nrec) -> list nrec -> res (list nrec).
+Definition pfn_sound (pf : pfn_t) : Prop := forall f l out, pf f l = Ok out -> sequential f l = Ok out.
+Definition pfn_live (pf : pfn_t) : Prop :=
+  forall f l rs, sequential f l = Ok rs -> pf f l = Ok rs \/ pf f l = Err E_Fuel.
+
+Lemma pfn_sound_parallel : forall cfg sched, pfn_sound (fun f => parallel_function f cfg 0 None sched).
+Proof. intros cfg sched f l out H. exact (order_sound f cfg 0 None sched l out H). Qed.
+
+Lemma pfn_live_parallel : forall cfg sched, 1 <= cfg -> pfn_live (fun f => parallel_function f cfg 0 None sched).
+Proof.
+  intros cfg sched Hc f l rs Hs.
+  assert (Hc' : 1 <= effective_cpus cfg 0) by (unfold effective_cpus; simpl; exact Hc).
+  destruct (no_spurious_outcome f cfg 0 None sched l rs Hc' Hs) as [H|[[_ H]|H]].
+  - left. exact H.
+  - exfalso. apply H. reflexivity.
+  - right. exact H.
+Qed.
+
+Lemma mapM_single : forall {A B} (f : A -> res B) (a : A), mapM f [a] = (do b <- f a; Ok [b]).
+Proof. intros A B f a. cbn [mapM]. destruct (f a); reflexivity. Qed.
+
+(* the block through any sound helper is the block with the calls made one after another *)
+Lemma ids_stage1_sound : forall pf cn allow s0 s1, pfn_sound pf ->
+  ids_stage1 pf cn allow s0 = Ok s1 -> ids_stage1 sequential cn allow s0 = Ok s1.
+Proof.
+  intros pf cn allow s0 s1 Hpf H. unfold ids_stage1 in *.
+  destruct (C16.Model.dedup_pass (map fst s0)) as [[uniq set]|k]; [|discriminate]. cbn [bind] in *.
+  destruct (C16.Model.fix_all cn allow uniq set) as [fixed|k]; [|discriminate]. cbn [bind] in *.
+  destruct (combine fixed (map snd s0)) as [|r [|r2 t]]; [exact (Hpf _ _ _ H)|exact H|exact (Hpf _ _ _ H)].
+Qed.
+
+Lemma ids_stage1_live : forall pf cn allow s0 s1, pfn_live pf ->
+  ids_stage1 sequential cn allow s0 = Ok s1 ->
+  ids_stage1 pf cn allow s0 = Ok s1 \/ ids_stage1 pf cn allow s0 = Err E_Fuel.
+Proof.
+  intros pf cn allow s0 s1 Hpf H. unfold ids_stage1 in *.
+  destruct (C16.Model.dedup_pass (map fst s0)) as [[uniq set]|k]; [|discriminate]. cbn [bind] in *.
+  destruct (C16.Model.fix_all cn allow uniq set) as [fixed|k]; [|discriminate]. cbn [bind] in *.
+  destruct (combine fixed (map snd s0)) as [|r [|r2 t]]; [exact (Hpf _ _ _ H)|left; exact H|exact (Hpf _ _ _ H)].
+Qed.
+
+Lemma ids_stage1_ext : forall pf pf' cn allow s0, (forall f l, pf f l = pf' f l) ->
+  ids_stage1 pf cn allow s0 = ids_stage1 pf' cn allow s0.
+Proof.
+  intros pf pf' cn allow s0 E. unfold ids_stage1.
+  destruct (C16.Model.dedup_pass (map fst s0)) as [[uniq set]|k]; [|reflexivity]. cbn [bind].
+  destruct (C16.Model.fix_all cn allow uniq set) as [fixed|k]; [|reflexivity]. cbn [bind].
+  destruct (combine fixed (map snd s0)) as [|r [|r2 t]]; [apply E|reflexivity|apply E].
+Qed.
+
+Lemma pp_ids_workers_irrelevant : forall cn allow cfg sched recs out,
+  pp_ids cn allow cfg sched recs = Ok out -> pp_ids_inproc cn allow recs = Ok out.
+Proof.
+  intros cn allow cfg sched recs out H. unfold pp_ids, pp_ids_inproc, pp_ids_gen in *.
+  destruct (no_empty_seq recs); [|discriminate].
+  destruct (ids_stage1 _ cn allow (set_nindices 1 recs)) as [s1|k] eqn:E in H; [|discriminate].
+  rewrite (ids_stage1_sound _ cn allow _ s1 (pfn_sound_parallel cfg sched) E). exact H.
+Qed.
+
+Lemma pp_ids_failure_surfaces : forall cn allow cfg sched recs e0,
+  pp_ids_inproc cn allow recs = Err e0 -> exists e, pp_ids cn allow cfg sched recs = Err e.
+Proof.
+  intros cn allow cfg sched recs e0 Hs.
+  destruct (pp_ids cn allow cfg sched recs) as [out|e] eqn:Hp.
+  - apply pp_ids_workers_irrelevant in Hp. rewrite Hp in Hs. discriminate.
+  - exists e. reflexivity.
+Qed.
+
+Lemma pp_ids_cpus1 : forall cn allow sched recs, pp_ids cn allow 1 sched recs = pp_ids_inproc cn allow recs.
+Proof.
+  intros cn allow sched recs. unfold pp_ids, pp_ids_inproc, pp_ids_gen.
+  destruct (no_empty_seq recs); [|reflexivity].
+  rewrite (ids_stage1_ext _ sequential cn allow _); [reflexivity|].
+  intros f l. apply cpus1_is_map. reflexivity.
+Qed.
+
+Lemma pp_ids_no_spurious_outcome : forall cn allow cfg sched recs out,
+  1 <= cfg -> pp_ids_inproc cn allow recs = Ok out ->
+  pp_ids cn allow cfg sched recs = Ok out \/ pp_ids cn allow cfg sched recs = Err E_Fuel.
+Proof.
+  intros cn allow cfg sched recs out Hc H. unfold pp_ids, pp_ids_inproc, pp_ids_gen in *.
+  destruct (no_empty_seq recs); [|discriminate].
+  destruct (ids_stage1 sequential cn allow (set_nindices 1 recs)) as [s1|k] eqn:E; [|discriminate].
+  destruct (ids_stage1_live _ cn allow _ s1 (pfn_live_parallel cfg sched Hc) E) as [E'|E']; rewrite E'; cbn [bind] in *.
+  - left. exact H.
+  - right. reflexivity.
+Qed.
+
+(* ---------- the identifiers that come back are the ones the parent computed ---------- *)
+Lemma clean_record_ident : forall r r', clean_record r = Ok r' -> fst r' = fst r.
+Proof.
+  intros r r' H. unfold clean_record in H. destruct (sanitise_sequence (snd r)) as [b|k]; [|discriminate].
+  cbn [bind] in H. inversion H. reflexivity.
+Qed.
+
+Lemma map_fst_combine : forall {X Y} (a : list X) (b : list Y), length a = length b -> map fst (combine a b) = a.
+Proof.
+  intros X Y a. induction a as [|x a IH]; intros [|y b] L; try reflexivity; try discriminate.
+  cbn [combine map fst]. f_equal. apply IH. cbn [length] in L. congruence.
+Qed.
+
+Lemma named_check_Ok : forall s out, named_check s = Ok out -> out = s.
+Proof. intros s out H. unfold named_check in H. match type of H with (if ?c then _ else _) = _ => destruct c end; [|discriminate]. inversion H. reflexivity. Qed.
+
+Lemma ids_stage1_idents : forall pf cn allow s0 out, pfn_sound pf ->
+  ids_stage1 pf cn allow s0 = Ok out ->
+  exists uniq set, C16.Model.dedup_pass (map fst s0) = Ok (uniq, set) /\ C16.Model.fix_all cn allow uniq set = Ok (map fst out).
+Proof.
+  intros pf cn allow s0 out Hpf H. apply (ids_stage1_sound pf cn allow s0 out Hpf) in H. unfold ids_stage1 in H.
+  destruct (C16.Model.dedup_pass (map fst s0)) as [[uniq set]|k] eqn:D; [|discriminate]. cbn [bind] in H.
+  destruct (C16.Model.fix_all cn allow uniq set) as [fixed|k] eqn:F; [|discriminate]. cbn [bind] in H.
+  exists uniq, set. split; [reflexivity|].
+  assert (L : length fixed = length (map snd s0)).
+  { rewrite (C16.Proofs.fix_all_length _ _ _ _ _ F). rewrite <- (C16.Proofs.Forall2_len _ _ _ _ _ (C16.Proofs.dedup_pass_rel _ _ _ D)).
+    now rewrite !map_length. }
+  assert (M : mapM clean_record (combine fixed (map snd s0)) = Ok out).
+  { destruct (combine fixed (map snd s0)) as [|r [|r2 t]]; [exact H| rewrite mapM_single; exact H | exact H]. }
+  rewrite F. f_equal. symmetry. etransitivity; [exact (mapM_proj clean_record fst fst clean_record_ident _ _ M)|exact (map_fst_combine _ _ L)].
+Qed.
+
+Lemma pp_ids_decided_in_parent : forall cn allow cfg sched recs out,
+  pp_ids cn allow cfg sched recs = Ok out ->
+  exists uniq set, C16.Model.dedup_pass (map fst (set_nindices 1 recs)) = Ok (uniq, set) /\
+                   C16.Model.fix_all cn allow uniq set = Ok (map fst out).
+Proof.
+  intros cn allow cfg sched recs out H. unfold pp_ids, pp_ids_gen in H.
+  destruct (no_empty_seq recs); [|discriminate].
+  destruct (ids_stage1 _ cn allow (set_nindices 1 recs)) as [s1|k] eqn:E in H; [|discriminate]. cbn [bind] in H.
+  apply named_check_Ok in H. subst out.
+  exact (ids_stage1_idents _ cn allow _ s1 (pfn_sound_parallel cfg sched) E).
+Qed.
+
+Lemma pp_ids_unique : forall cn allow cfg sched recs out,
+  pp_ids cn allow cfg sched recs = Ok out -> NoDup (nids out).
+Proof.
+  intros cn allow cfg sched recs out H. destruct (pp_ids_decided_in_parent _ _ _ _ _ _ H) as [uniq [set [D F]]].
+  apply C16.Proofs.dedup_pass_spec in D. destruct D as [D1 D2].
+  pose proof (C16.Proofs.fix_all_unique cn allow uniq set [] (map fst out) F D1 D2) as U. cbn [app] in U.
+  unfold C16.Proofs.ids in U. rewrite map_map in U. exact U.
+Qed.
+
+(* ---------- the variant with the bookkeeping per call ---------- *)
+Lemma sanitise_sequence_Ok : forall b, exists b', sanitise_sequence b = Ok b'.
+Proof. intro b. unfold sanitise_sequence. destruct (sanitise_chars (r_seq b)) as [s real]. eexists. reflexivity. Qed.
+
+(* one shared set object = the loop in the parent followed by the batch (bodies and identifiers of equal number) *)
+Lemma shared_is_parent : forall cn allow uniq bodies set, length uniq = length bodies ->
+  clean_records_shared cn allow (combine uniq bodies) set =
+  (do fixed <- C16.Model.fix_all cn allow uniq set; mapM clean_record (combine fixed bodies)).
+Proof.
+  intros cn allow. induction uniq as [|u uniq IH]; intros [|b bodies] set L; try discriminate; [reflexivity|].
+  cbn [combine clean_records_shared C16.Model.fix_all fst snd].
+  destruct (C16.Model.fix_record_name_id cn allow u set) as [[i set']|k]; [|reflexivity]. cbn [bind].
+  cbn [length] in L. rewrite (IH bodies set' ltac:(congruence)).
+  destruct (sanitise_sequence_Ok b) as [b' Eb]. rewrite Eb. cbn [bind].
+  assert (C : clean_record (i, b) = Ok (i, b')) by (unfold clean_record; cbn [fst snd]; rewrite Eb; reflexivity).
+  destruct (C16.Model.fix_all cn allow uniq set') as [fixed|k]; cbn [bind combine mapM]; [|reflexivity].
+  rewrite C. cbn [bind]. reflexivity.
+Qed.
+
+Lemma per_call_cpus1_is_parent : forall cn allow sched recs,
+  pp_ids_per_call cn allow 1 sched recs = pp_ids_inproc cn allow recs.
+Proof.
+  intros cn allow sched recs. unfold pp_ids_per_call, pp_ids_inproc, pp_ids_gen.
+  destruct (no_empty_seq recs); [|reflexivity]. f_equal.
+  unfold ids_stage1_per_call, ids_stage1. generalize (set_nindices 1 recs). intro s0.
+  destruct (C16.Model.dedup_pass (map fst s0)) as [[uniq set]|k] eqn:D; [|reflexivity]. cbn [bind].
+  assert (L : length uniq = length (map snd s0)).
+  { rewrite <- (C16.Proofs.Forall2_len _ _ _ _ _ (C16.Proofs.dedup_pass_rel _ _ _ D)). now rewrite !map_length. }
+  assert (X : clean_records_shared cn allow (combine uniq (map snd s0)) set =
+              (do fixed <- C16.Model.fix_all cn allow uniq set; mapM clean_record (combine fixed (map snd s0))))
+    by (apply shared_is_parent; exact L).
+  assert (Y : (match combine uniq (map snd s0) with
+               | [r] => clean_records_shared cn allow (combine uniq (map snd s0)) set
+               | _ => if effective_cpus 1 0 =? 1 then clean_records_shared cn allow (combine uniq (map snd s0)) set
+                      else pool_map (clean_record_own_copy cn allow set) 1 None sched (combine uniq (map snd s0))
+               end) = clean_records_shared cn allow (combine uniq (map snd s0)) set).
+  { destruct (combine uniq (map snd s0)) as [|r [|r2 t]]; reflexivity. }
+  rewrite Y, X. destruct (C16.Model.fix_all cn allow uniq set) as [fixed|k]; [|reflexivity]. cbn [bind].
+  destruct (combine fixed (map snd s0)) as [|r [|r2 t]]; [reflexivity|rewrite mapM_single; reflexivity|reflexivity].
+Qed.
+
+(* the witness: two records whose ids differ only in characters that are illegal in file names *)
+Fixpoint codes (s : String.string) : list Z :=
+  match s with String.EmptyString => [] | String.String a r => Z.of_N (Ascii.N_of_ascii a) :: codes r end.
+Section Witness.
+Import String.
+Definition wrec (id : String.string) : nrec := (C16.Model.mkRec (codes id) (codes "name"%string) None 0, mkR 0 0 (codes "ACGTACGT"%string) 0 1 0).
+Definition witness_chars : list nrec := [wrec "scaf7|len1200"%string; wrec "scaf7:len1200"%string].
+Definition witness_versions : list nrec :=
+  [wrec "short_one"%string; wrec "NZ_AMZN01000079.1"%string; wrec "sample_contig12.assemblyA"%string; wrec "NZ_AMZN01000079.2"%string;
+   wrec "sample_contig12.assemblyB"%string].
+Definition id_stripped : list Z := codes "scaf7len1200"%string.
+Definition id_stripped_0 : list Z := codes "scaf7len1200_0"%string.
+Definition ids_versions_inproc : list (list Z) :=
+  [codes "short_one"%string; codes "NZ_AMZN01000079"%string; codes "c00012_sample_.."%string; codes "c00004_NZ_AMZN.."%string;
+   codes "sample_conti_0"%string].
+Definition ids_versions_copies : list (list Z) :=
+  [codes "short_one"%string; codes "NZ_AMZN01000079"%string; codes "c00012_sample_.."%string; codes "NZ_AMZN01000079"%string;
+   codes "c00012_sample_.."%string].
+End Witness.
+(* every chunk is started, then every chunk reports *)
+Definition sched_all (n : Z) : list event :=
+  map Start (zrange 0 (Z.to_nat n)) ++ map Finish (zrange 0 (Z.to_nat n)).
+
+Lemma per_call_copy_witness :
+  exists out1 out2,
+    pp_ids_per_call C16.Model.contig_no true 1 [] witness_chars = Ok out1 /\
+    pp_ids_per_call C16.Model.contig_no true 2 (sched_all 2) witness_chars = Ok out2 /\
+    nids out1 = [id_stripped; id_stripped_0] /\
+    nids out2 = [id_stripped; id_stripped] /\
+    pp_ids C16.Model.contig_no true 2 (sched_all 2) witness_chars = Ok out1.
+Proof. eexists. eexists. repeat (match goal with |- _ /\ _ => split end); vm_compute; reflexivity. Qed.
+
+Lemma per_call_copy_refuted :
+  exists allow cfg sched recs out1 out2,
+    pp_ids_per_call C16.Model.contig_no allow 1 [] recs = Ok out1 /\
+    pp_ids_per_call C16.Model.contig_no allow cfg sched recs = Ok out2 /\
+    nids out1 <> nids out2 /\ ~ NoDup (nids out2) /\
+    pp_ids C16.Model.contig_no allow cfg sched recs = Ok out1.
+Proof.
+  destruct per_call_copy_witness as [out1 [out2 [H1 [H2 [I1 [I2 H3]]]]]].
+  exists true, 2, (sched_all 2), witness_chars, out1, out2. repeat split; try assumption.
+  - rewrite I1, I2. vm_compute. intro H. inversion H.
+  - rewrite I2. intro N. inversion N as [|x l Hn _]. apply Hn. left. reflexivity.
+Qed.
+
+(* ---------- the decidable specification of the identifier block ---------- *)
+Lemma str_eqb_refl : forall s, C16.Model.str_eqb s s = true.
+Proof. intro s. apply C16.Proofs.str_eqb_eq. reflexivity. Qed.
+
+Lemma ident_eqb_eq : forall a b, ident_eqb a b = true -> a = b.
+Proof.
+  intros [i n o x] [i' n' o' x'] H. unfold ident_eqb in H. cbn in H.
+  apply andb_true_iff in H. destruct H as [H Hx]. apply andb_true_iff in H. destruct H as [H Ho].
+  apply andb_true_iff in H. destruct H as [Hi Hn].
+  apply C16.Proofs.str_eqb_eq in Hi. apply C16.Proofs.str_eqb_eq in Hn. apply Z.eqb_eq in Hx. subst.
+  f_equal. destruct o as [o|], o' as [o'|]; cbn in Ho; try discriminate; [|reflexivity].
+  apply C16.Proofs.str_eqb_eq in Ho. now subst.
+Qed.
+
+Lemma ident_eqb_refl : forall a, ident_eqb a a = true.
+Proof.
+  intros [i n o x]. unfold ident_eqb. cbn. rewrite !str_eqb_refl, Z.eqb_refl.
+  destruct o as [o|]; cbn; [rewrite str_eqb_refl|]; reflexivity.
+Qed.
+
+Lemma nrec_eqb_eq : forall a b, nrec_eqb a b = true -> a = b.
+Proof.
+  intros [a1 a2] [b1 b2] H. unfold nrec_eqb in H. cbn [fst snd] in H. apply andb_true_iff in H. destruct H as [H1 H2].
+  apply ident_eqb_eq in H1. apply prec_eqb_eq in H2. now subst.
+Qed.
+
+Lemma nrec_eqb_refl : forall a, nrec_eqb a a = true.
+Proof. intros [a1 a2]. unfold nrec_eqb. cbn [fst snd]. now rewrite ident_eqb_refl, prec_eqb_refl. Qed.
+
+Lemma ids_spec_ok_sound : forall cn allow recs l,
+  ids_spec_ok cn allow recs (Ok l) = true -> pp_ids_inproc cn allow recs = Ok l /\ NoDup (nids l).
+Proof.
+  intros cn allow recs l H. unfold ids_spec_ok in H.
+  destruct (pp_ids_inproc cn allow recs) as [l'|k]; [|discriminate].
+  apply andb_true_iff in H. destruct H as [H1 H2].
+  apply (list_eqb_gen_eq nrec_eqb nrec_eqb_eq) in H1. apply C16.Proofs.distinct_NoDup in H2. subst. split; [reflexivity|exact H2].
+Qed.
+
+Lemma ids_model_meets_spec : forall cn allow cfg sched recs,
+  pp_ids cn allow cfg sched recs <> Err E_Fuel \/ pp_ids_inproc cn allow recs = Err E_Fuel ->
+  1 <= cfg ->
+  ids_spec_ok cn allow recs (pp_ids cn allow cfg sched recs) = true.
+Proof.
+  intros cn allow cfg sched recs Hf Hc. unfold ids_spec_ok.
+  destruct (pp_ids cn allow cfg sched recs) as [l|k] eqn:E.
+  - pose proof (pp_ids_unique _ _ _ _ _ _ E) as U. rewrite (pp_ids_workers_irrelevant _ _ _ _ _ _ E).
+    apply andb_true_iff. split; [apply (list_eqb_gen_refl nrec_eqb nrec_eqb_refl)|apply C16.Proofs.distinct_NoDup; exact U].
+  - destruct (pp_ids_inproc cn allow recs) as [l'|k'] eqn:E'; [|reflexivity].
+    destruct (pp_ids_no_spurious_outcome cn allow cfg sched recs l' Hc E') as [X|X]; rewrite X in E; [discriminate|].
+    inversion E; subst k. destruct Hf as [Hf|Hf]; [exfalso; apply Hf; reflexivity|discriminate].
+Qed.
+
+(* the same with --no-allow-long-headers: version stripping and _shorten_ids with equal contig number and prefix;
+   ONE worker process of a pool of three runs all five calls one after another (rounds 5) - each call still
+   works on its own copy of the set *)
+Lemma per_call_copy_witness_versions :
+  exists out1 out2,
+    pp_ids_per_call C16.Model.contig_no false 1 [] witness_versions = Ok out1 /\
+    pp_ids_per_call C16.Model.contig_no false 3 (rounds 5) witness_versions = Ok out2 /\
+    nids out1 = ids_versions_inproc /\ nids out2 = ids_versions_copies /\
+    pp_ids C16.Model.contig_no false 3 (rounds 5) witness_versions = Ok out1.
+Proof. eexists. eexists. repeat (match goal with |- _ /\ _ => split end); vm_compute; reflexivity. Qed.
